@@ -1017,6 +1017,15 @@ package rueidis
 //@   modifies *
 //@   assert [C26 the-hook-registration-is-swapped-out-for-the-empty-one] at Swap: arg1 == emptypshks
 //@   assert [C26 the-hook-registration-is-taken-out-before-the-pending-calls-are-failed] at NewErrorResult: calls(Swap) == 1
+//@ func subs.Subscribe$1 #c26
+//@   modifies *
+//@   ensures [C26 only-subscribing-moves-the-id-counter] calls(AddUint64) == 0
+//@   assert [C26 cancelling-removes-exactly-this-subscriber] at remove: arg0 == s && arg1 == id
+// a pending (not yet installed) hook registration of a dedicated cluster client is detached before its channel is closed,
+// and what stays registered afterwards is nothing or a registration made by this very call
+//@ func dedicatedClusterClient.SetPubSubHooks #c26
+//@   modifies *
+//@   assert [C26 a-replaced-pending-registration-is-detached-before-its-channel-is-closed] at close: c.pshks == nil
 //@ func subs.Confirm #c26
 //@   modifies *
 //@   ensures [C26 only-subscribing-moves-the-id-counter] calls(AddUint64) == 0
@@ -1133,6 +1142,7 @@ package rueidis
 //@   assert [C11 key-i-of-the-command-is-looked-up-under-position-i] at Flight: 0 <= i && i < keys && arg1 == commands[1 + i] && arg2 == mgetcc
 //@   assert [C11 a-missed-key-is-appended-to-the-rewritten-command-in-key-order] at Args#1: len(arg1) == 1 && arg1[0] == key
 //@   assert [C11 a-failed-fetch-cancels-exactly-the-keys-it-asked-for] at Cancel: arg2 == mgetcc && arg3 == err
+//@   assert [C09 C11 the-keys-cancelled-are-the-keys-that-were-asked-from-the-server] at Cancel: arg1 == returned(Commands, 5)[2 + rangeindex]
 //@ func mux.DoMultiCache #c11
 //@   option opaque-pkgs=github.com/redis/rueidis/internal/cmds
 //@   modifies *
